@@ -4,6 +4,10 @@ from ..engines import queueproto as Q
 
 
 def run(ctx):
+    # language-level slips in the modules the property is anchored in (engine Y)
+    from ..engines import gotchas as GY
+    GY.run(ctx, ('class_queue', 'comb_spec_searcher'))
+    ctx.floor("Y", 1)
     ctx.extra["explanation"] = (
         "static analysis (ast, no execution) of DefaultQueue's control structure: the "
         "ignore test is made after a packet leaves staging, the ignore set only grows, "
